@@ -87,6 +87,13 @@ def _share_storage(x, y):
     return x.storage().data_ptr() == y.storage().data_ptr()
 
 
+def _common_dtype(x, y):
+    # `y` on the device of `x`, both in the wider of the two dtypes, so that a
+    # float32 operand (e.g. `I`) never rounds a float64 one
+    dtype = torch.promote_types(x.dtype, y.dtype)
+    return x.to(dtype=dtype), y.to(device=x.device, dtype=dtype)
+
+
 def scalar_mult(x, y, out=None):
     """A function that computes the product between complex matrices and scalars,
     complex vectors and scalars or two complex scalars.
@@ -100,7 +107,7 @@ def scalar_mult(x, y, out=None):
               Either overwrites `out`, or returns a new tensor.
     :rtype: torch.Tensor
     """
-    y = y.to(x)
+    x, y = _common_dtype(x, y)
     if out is None:
         out = torch.zeros(2, *((real(x) * real(y)).shape)).to(x)
     else:
@@ -127,7 +134,7 @@ def matmul(x, y):
     :returns: The product between x and y.
     :rtype: torch.Tensor
     """
-    y = y.to(x)
+    x, y = _common_dtype(x, y)
     re = torch.matmul(real(x), real(y)).sub_(torch.matmul(imag(x), imag(y)))
     im = torch.matmul(real(x), imag(y)).add_(torch.matmul(imag(x), real(y)))
 
@@ -149,7 +156,7 @@ def inner_prod(x, y):
     :returns: The inner product, :math:`\\langle x\\vert y\\rangle`.
     :rtype: torch.Tensor
     """
-    y = y.to(x)
+    x, y = _common_dtype(x, y)
 
     if x.dim() == 2 and y.dim() == 2:
         return make_complex(
